@@ -330,6 +330,53 @@ def real_raw(args, part):
     return _real(METHODS[part], args[0])
 
 
+
+# ------------------------------------------------------------------ raw request targets against a REAL listening server
+def _raw_targets(chunk):
+    import itertools
+    T = []
+    for c in CONTAINERS:
+        for n in (1, 2):
+            for segs in itertools.product(SEGS, repeat=n):
+                T.append(c + "/" + "/".join(segs))
+    T += [c + "/" + "../" * k + tail for c in CONTAINERS for k in range(1, 7) for tail in TAILS]
+    T += ["/user/calendars/cal/%2e%2e/%2e%2e/%2e%2e/%2e%2e/other/secret", "/..%2f..%2fother%2fsecret", "//../other/secret",
+          "/%2e%2e/other/secret", "/user/calendars/cal/..%2f..%2f..%2f..%2fother%2fsecret"]
+    return T[chunk::2]
+
+
+def body_real_server(chunk):
+    """Raw request targets (the segment menu under every container, the canonical climbs, encoded variants), written
+    VERBATIM to a loopback socket of a REAL aiohttp server in front of the real XandikosApp on real on-disk
+    repositories (xv/real_c13_aio.py): nothing outside the data root is created, changed or removed, and no answer
+    carries the content of the secret files next to the root."""
+    from xv.core import pick, untraced
+    chunk = pick(chunk, 2)
+    with untraced():
+        import json
+        import os
+        import subprocess
+        import xv
+        method = METHODS[ctx.PART]
+        p = subprocess.run(["/venv/bin/python", os.path.join(os.path.dirname(__file__), "..", "real_c13_aio.py"),
+                            json.dumps({"method": method, "targets": _raw_targets(chunk)})], capture_output=True, text=True,
+                           cwd=xv.REPO, env={"PATH": os.environ.get("PATH", ""), "PYTHONPATH": xv.REPO}, timeout=900)
+        if p.returncode != 0:
+            raise RuntimeError("real server driver failed: " + p.stderr[-600:])
+        res = json.loads(p.stdout)
+        if res["escaped"] or res["leaks"]:
+            ctx.LAST_EXC = repr((res["escaped"][:3], res["leaks"][:3]))
+            return (False, "escape")
+        return (True, "contained:%d" % chunk)
+
+
+def h_real_server(chunk: int) -> bool:
+    """
+    pre: 0 <= chunk < 2
+    post: _
+    """
+    return run(body_real_server, chunk)
+
 _B = {"quick": {"nseg": 2, "hseg": 3, "rlen": 5, "klen": 5}, "thorough": {"nseg": 3, "hseg": 5, "rlen": 7, "klen": 7}}
 _ENC = ["xandikos.web.XandikosBackend.get_resource", "xandikos.web.XandikosBackend._map_to_file_path",
         "xandikos.web.XandikosBackend.create_collection", "xandikos.webdav.WebDAVApp._get_resource_from_environ",
@@ -342,6 +389,15 @@ _ENC = ["xandikos.web.XandikosBackend.get_resource", "xandikos.web.XandikosBacke
         "xandikos.webdav.href_to_path"]
 
 HARNESSES = [
+    Harness("real_server", h_real_server, body_real_server, classes=[("contained:0", 0), ("contained:1", 4)],
+            parts={"quick": list(range(len(METHODS)))}, budget={"quick": 150, "thorough": 300},
+            per_path_timeout={"quick": 150, "thorough": 150}, twin_budget={"quick": 100, "thorough": 150},
+            describe="about 1700 raw request targets per method written verbatim to a loopback socket of a REAL aiohttp "
+                     "server (real XandikosApp, real on-disk repositories, secret files next to the data root): nothing "
+                     "outside the root changes, no answer carries the secrets; part = method",
+            encodes=["xandikos.webdav.WebDAVApp.aiohttp_handler", "xandikos.webdav.WebDAVApp._get_resource_from_environ",
+                     "xandikos.web.XandikosBackend.get_resource", "xandikos.web.XandikosBackend._map_to_file_path",
+                     "xandikos.web.XandikosBackend.create_collection", "xandikos.webdav.href_to_path"]),
     Harness("segments", h_segments, body_segments,
             classes=[("dotted:as-normalised", 0), ("dotted:refused", 4), ("normal:2xx", 4), ("normal:404", 0),
                      ("inner-dots:2xx", 0)],
